@@ -49,9 +49,13 @@ def c16_1(ctx):
     msgs, codecs = _tables(ctx)
     for name in sorted(set(msgs) | set(SPEC.MESSAGES)):
         got, want = msgs.get(name), SPEC.MESSAGES.get(name)
-        ctx.check(got is not None and want is not None and " ".join(got.split()) == want, "layout:%s" % name, MPP + ":1",
-                  "message `%s` is laid out as %r; the wire format is %r" % (name, got, want), what="layout:%s:%s" % (name, got),
-                  sample={"message": name, "layout": got} if name in ("version", "cmpctblock", "getblocktxn", "merkleblock") else None)
+        if want is None:
+            # a message the reference table does not know (added since): only its well-formedness is checked below
+            ctx.note("message `%s` is not in the reference table: layout %r checked for well-formedness only" % (name, got))
+        else:
+            ctx.check(got is not None and " ".join(got.split()) == want, "layout:%s" % name, MPP + ":1",
+                      "message `%s` is laid out as %r; the wire format is %r" % (name, got, want), what="layout:%s:%s" % (name, got),
+                      sample={"message": name, "layout": got} if name in ("version", "cmpctblock", "getblocktxn", "merkleblock") else None)
         if got is None:
             continue
         fields = _letters(got)
